@@ -1,5 +1,5 @@
 (** C17 - the collector's time slot for float arguments: over exact rationals, and in binary64. *)
-From Coq Require Import ZArith QArith Qround Lia Floats.
+From Coq Require Import ZArith QArith Qround Lia PrimFloat SpecFloat FloatOps.
 From PGV Require Import Diagnostics.
 Open Scope Q_scope.
 (** * the time slot for float arguments, read as the exact rationals they are:
